@@ -416,6 +416,11 @@ def _run_check(prop: str, tier: str, seed: int, replay_file: str | None = None, 
     print(f"SUMMARY property={prop} tier={tier} seed={seed} evaluations={merged.evaluations} "
           f"distinct_nontrivial={len(merged.nontrivial)} violations={violations} known={known_hits} wall={wall:.1f}s")
     if harness_errors:
+        try:
+            with open(os.path.join(os.environ.get("VERIF_HOME", "/verif"), ".work", f"harness_errors_{prop}.log"), "a") as f:
+                f.write(f"--- {time.ctime()} tier={tier} seed={seed}\n" + "\n".join(harness_errors) + "\n")
+        except OSError:
+            pass
         for h in harness_errors:
             print("HARNESS-ERROR", h, file=sys.stderr)
         print(f"HARNESS-ERROR property={prop}: {len(harness_errors)} shard(s) failed; result inconclusive")
